@@ -609,9 +609,18 @@ func (db *DB) search(o Object, field, operator string, value interface{}, constr
 }
 
 func (db *DB) flush(o Object) (err error) {
+	var pending Object
+	var ok bool
 
-	if e := db.writeObject(o); e != nil {
-		err = e
+	// what has to reach the disk is the version of the Object which was
+	// accepted and waits to be written, whatever the Object of the caller
+	// holds by now (it may not even be stored anymore)
+	if pending, ok = db.asyncw.get(o); !ok {
+		return
+	}
+
+	if err = db.writeObject(pending); err != nil {
+		return
 	}
 
 	// we delete object from the list of objects to save
